@@ -15,7 +15,8 @@ from props import c19
 # character, or after everything was written and synced but before the rename
 TORN_CLASSES = ["zero", "one", "third", "half", "last", "complete"]
 CFG = {"replayIsComplete": True, "atomicWrite": False, "loadIsPerEntry": True, "replayOrderPreserved": True, "loadReadsCommitted": True,
-       "saveOnEveryEnding": True}     # probed per run (see probe)
+       "saveOnEveryEnding": True, "savedEqualsLive": True}
+FL_MISMATCH = []                                          # (run tag, op index, text): state file vs live session after a stepping request     # probed per run (see probe)
 ROWS = {}                                                 # wave 7: counts per row of the coverage table (notes/C20-report.md)
 UNUSABLE_OK = [False]                                     # probed: a state file that parses but is not a session state is skipped at load
 SEMANTIC_DAMAGE = ["state-null", "state-empty", "state-list", "missing-logs", "logs-wrong-type", "empty-object", "garbage"]
@@ -195,6 +196,47 @@ class Run:
         if "expecting a valid instance id" in txt:
             return ("invalid", None)
         return (f"http-{r.status_code}", txt[:200])
+
+    def rebegin(self, mid, sess):
+        """a further session on the SAME instance (other scenarios / equations / settings), with or without end-session before;
+        neither request writes the state file"""
+        iid = self.ids[mid]
+        if sess.get("end"):
+            c19.post(self.srv.client, f"/{iid}/end-session")
+        c19.post(self.srv.client, f"/{iid}/begin-session", {"scenario_managers": sess["sms"], "scenarios": sess["scs"], "equations": sess["eqs"],
+                                                           "settings": copy.deepcopy(sess.get("settings", {}))})
+
+    def file_vs_live(self, mid):
+        """after a stepping request: the logs in the state FILE (read by the harness, not through the adapter's loader) against the
+        logs of the live session, entry by entry -> text of the first difference or None"""
+        iid = self.ids.get(mid)
+        b = self.srv.bptk(iid) if self.srv is not None and hasattr(self.srv, "bptk") else None
+        if b is None or b.session_state is None:
+            return None
+        try:
+            import jsonpickle
+            from BPTK_Py.util import statecompression as sc
+            env = jsonpickle.loads(open(os.path.join(self.path, iid + ".json")).read())
+            state = jsonpickle.loads(env["data"]["state"])
+            if self.compress:
+                state["settings_log"] = sc.decompress_settings(state["settings_log"])
+                state["results_log"] = sc.decompress_results(state["results_log"])
+        except Exception as e:
+            return f"state file unreadable: {e!r}"
+        live = b.session_state
+        for fld in ("scenario_managers", "scenarios", "equations", "settings", "step"):
+            if state.get(fld) != live.get(fld):
+                return f"{fld}: file {state.get(fld)!r}, live {live.get(fld)!r}"
+        canon = lambda v: json.loads(json.dumps(v))
+        for fld in ("settings_log", "results_log"):
+            f_ = {c19.tkey(k): canon(v) for k, v in state[fld].items()}
+            l_ = {c19.tkey(k): canon(v) for k, v in live[fld].items()}
+            if list(f_) != list(l_):
+                return f"{fld}: steps in the file {list(f_)}, live {list(l_)}"
+            for k in l_:
+                if c19.canon_settings(f_[k]) != c19.canon_settings(l_[k]):
+                    return f"{fld}[{k}]: file {f_[k]}, live {l_[k]}"
+        return None
 
     def stream(self, iid, st):
         """stream-steps: runs to the stop time (`close` None), or the client reads `close` results and hangs up (the response is
@@ -433,6 +475,12 @@ def run_ops(hist, ops, base, tag, runner=None):
                     run.start(op[1], hist["instances"][op[1]]); out.append(("none", None))
                 elif op[0] == "step":
                     out.append(run.step(op[1], op[2]))
+                    if out[-1][0] in ("ok", "stopped") and runner is None:
+                        d_ = run.file_vs_live(op[1])
+                        if d_ is not None:
+                            FL_MISMATCH.append((tag, len(out) - 1, d_))
+                elif op[0] == "rebegin":
+                    run.rebegin(op[1], hist["instances"][op[1]]["sessions"][op[2] - 1]); out.append(("none", None))
                 elif op[0] == "crash":
                     run.crash(); out.append(("none", None))
                 elif op[0] == "torn":
@@ -466,42 +514,37 @@ def model_lines(hist, ops, un_by_step=None):
     spec = hist["spec"]
     req = ["new", f"cfg {int(CFG['replayIsComplete'])} 1"]
     counters = {}
+    cur = {m: m for m in range(len(hist["instances"]))}    # model instance of each real instance: a further session is a new one
+    shown = dict(cur)                                     # whose file the state file of the real instance is: the new session's from its first step on
+    def files():
+        for mid in range(len(hist["instances"])):
+            req.append(f"file {shown[mid]}")
     for op in ops:
-        if op[0] == "step" and op[2]["k"] in ("multi", "stream"):
+        if op[0] == "step":
+            shown[op[1]] = cur[op[1]]
+        if op[0] == "rebegin":
+            cur[op[1]] = op[1] + 100 * op[2]
+            req.append(f"start {cur[op[1]]} {c19.T(spec['start'])} {c19.T(spec['dt'])} {c19.T(spec['stop'])} {cur[op[1]]}")
+        elif op[0] == "start":
+            req.append(f"start {op[1]} {c19.T(spec['start'])} {c19.T(spec['dt'])} {c19.T(spec['stop'])} {op[1]}")
+        elif op[0] == "step":
             n = nsteps(op, counters, un_by_step)
             counters[op[1]] = counters.get(op[1], 0) + 1
             for j in range(n):                            # n steps of the model; the files are compared after the last one
-                req.append(f"step {op[1]} {settings_token(op[2])}")
+                req.append(f"step {cur[op[1]]} {settings_token(op[2])}")
                 if j + 1 < n:
-                    for mid in range(len(hist["instances"])):
-                        req.append(f"file {mid}")
+                    files()
             if n == 0:
-                req.append("file 0")                      # (a request that took no step: placeholder for its reply)
-            for mid in range(len(hist["instances"])):
-                req.append(f"file {mid}")
-            continue
-        if op[0] == "step":
-            counters[op[1]] = counters.get(op[1], 0) + 1
-        if op[0] == "start":
-            req.append(f"start {op[1]} {c19.T(spec['start'])} {c19.T(spec['dt'])} {c19.T(spec['stop'])} {op[1]}")
-        elif op[0] == "step" and op[2]["k"] == "multi":
-            for j in range(op[2]["n"]):                   # n steps of the model; the files are compared after the last one
-                req.append(f"step {op[1]} {settings_token(op[2])}")
-                if j + 1 < op[2]["n"]:
-                    for mid in range(len(hist["instances"])):
-                        req.append(f"file {mid}")
-        elif op[0] == "step":
-            req.append(f"step {op[1]} {settings_token(op[2])}")
+                req.append(f"file {cur[op[1]]}")           # (a request that took no step: placeholder for its reply)
         elif op[0] == "crash":
             req.append("crash")
         elif op[0] == "damage":
-            req.append(f"damage {op[1]}")
+            req.append(f"damage {cur[op[1]]}")
         elif op[0] == "evict":
             req.append("crash")                           # for the model: every instance comes from its file again
         else:
-            req.append(f"torn {op[1]} {settings_token(op[2])}")
-        for mid in range(len(hist["instances"])):
-            req.append(f"file {mid}")
+            req.append(f"torn {cur[op[1]]} {settings_token(op[2])}")
+        files()
     return req
 
 
@@ -509,6 +552,15 @@ def base_ops(hist):
     """the requests of all instances in one sequence: `order` (a list of instance numbers, one per step, any
     interleaving) when given, else round-robin; an instance is started right before its first step or, with
     `late_start` false, all instances first"""
+    if any(i.get("sessions") for i in hist["instances"]):
+        # several sessions one after the other on an instance: its requests in sequence (start, steps, begin again, steps, ...)
+        ops = [("start", m) for m in range(len(hist["instances"]))]
+        for m, i in enumerate(hist["instances"]):
+            ops += [("step", m, st) for st in i["steps"]]
+            for sidx, sess in enumerate(i.get("sessions", []), 1):
+                ops.append(("rebegin", m, sidx))
+                ops += [("step", m, st) for st in sess["steps"]]
+        return ops
     pending = [list(i["steps"]) for i in hist["instances"]]
     order = hist.get("order")
     if order is None:
@@ -530,6 +582,18 @@ def base_ops(hist):
     return ops
 
 
+def unstepped_session(ops, k):
+    """True if at position k some instance has begun a further session and not stepped it yet: the new session is not
+    externalised before its first step (begin-session writes nothing) -- a crash there brings the OLD session back, by design"""
+    last = {}
+    for op in ops[:k]:
+        if op[0] in ("rebegin", "step"):
+            last[op[1]] = op[0]
+    # (also: an instance that is lost by the crash because it was never stepped cannot begin a further session afterwards)
+    later = {op[1] for op in ops[k:] if op[0] == "rebegin"}
+    return any(v == "rebegin" for v in last.values()) or any(m not in last for m in later)
+
+
 def variants(hist):
     """crash between any two requests (every position k), crash inside the state write of every stepping request (every
     truncation class), and -- `multi` -- crashes at several positions of one run.  With an atomic state write the
@@ -538,7 +602,7 @@ def variants(hist):
     out = []
     if hist.get("crash", True):
         for k in hist.get("crash_points", range(len(ops) + 1)):
-            if k <= len(ops):
+            if k <= len(ops) and not unstepped_session(ops, k):
                 out.append((f"crash@{k}", ops[:k] + [("crash",)] + ops[k:]))
     if hist.get("damage"):
         # disk faults: once every instance is externalised, the state file of EACH instance alone and of EVERY pair of
@@ -566,7 +630,7 @@ def variants(hist):
         # `lazy`: the instances are loaded by the next request that names them); the client retries the request that was never
         # answered: everything continues from the last COMPLETED write
         for k, op in enumerate(ops):
-            if op[0] == "step":
+            if op[0] == "step" and not unstepped_session(ops, k):
                 classes = TORN_CLASSES if hist.get("torn") == "all" else [TORN_CLASSES[(k + j) % 6] for j in (0, 2, 5)]
                 for cls in classes:
                     for lazy in ((False, True) if hist.get("torn") == "all" else (False,)):
@@ -580,8 +644,8 @@ def variants(hist):
     return ops, out
 
 
-def requested(hist, mid):
-    inst = hist["instances"][mid]
+def requested(hist, mid, sidx=0):
+    inst = hist["instances"][mid] if sidx == 0 else hist["instances"][mid]["sessions"][sidx - 1]
     return {(sm, sc, eq) for sm in inst["sms"] for sc in c19.MANAGERS[sm] if sc in inst["scs"] for eq in inst["eqs"]}
 
 
@@ -598,7 +662,13 @@ def check_variant(hist, name, ops, un_by_step, base, model_out, runner=None):
     mi = 2                                            # index into model_out (after "new", "cfg")
     torn_mids = set()
     corr = []
+    sess_of = {}
+    tag_fl = [x for x in FL_MISMATCH if x[0] == "c"]
+    del FL_MISMATCH[:]
+    fl_v = [("saved-differs-from-live", f"{name}: after op {tag_fl[0][1]} {ops[tag_fl[0][1]][:2]} the state file does not hold the live session: {tag_fl[0][2]}")] if tag_fl else []
     for oi, op in enumerate(ops):
+        if op[0] == "rebegin":
+            sess_of[op[1]] = op[2]
         kind, body = got[oi]
         ngroups = max(1, nsteps(op, counters, un_by_step)) if op[0] == "step" and op[2]["k"] in ("multi", "stream") else 1
         nexec = nsteps(op, counters, un_by_step) if op[0] == "step" else 1
@@ -639,8 +709,8 @@ def check_variant(hist, name, ops, un_by_step, base, model_out, runner=None):
             elif kind in ("ok", "stopped") and not same:
                 viol.append(("continuation-differs", f"{name}: op {oi}: instance {mid} step {n} answers {body}, uninterrupted run answers {u_body}"))
             for one in (body if isinstance(body, list) else [body]) if kind == "ok" else []:
-                if "msg" not in one and present(one) != requested(hist, mid):
-                    viol.append(("equation-missing", f"{name}: op {oi}: result lacks {sorted(requested(hist, mid) - present(one))}"))
+                if "msg" not in one and present(one) != requested(hist, mid, sess_of.get(mid, 0)):
+                    viol.append(("equation-missing", f"{name}: op {oi}: result lacks {sorted(requested(hist, mid, sess_of.get(mid, 0)) - present(one))}"))
             if kind in ("ok", "stopped"):
                 externalised.add(mid)
         elif op[0] == "evict":
@@ -662,6 +732,8 @@ def check_variant(hist, name, ops, un_by_step, base, model_out, runner=None):
                 corr.append(("correspondence-files", f"{name}: after op {oi} {op[:2]} files are {real_f}, model says {m_files}"))
         if viol:
             break
+    if not viol and fl_v:
+        viol = fl_v
     if not viol and corr:
         viol = corr
     if not viol and exp_lines != real_lines and CFG["replayIsComplete"] and CFG["replayOrderPreserved"]:
@@ -676,19 +748,24 @@ def run_history(hist, base, only=None, runner=None, pick=None):
     ops, vs = variants(hist)
     if pick is not None:
         vs = [v for v in vs if pick(v[0])]
+    del FL_MISMATCH[:]
     un, _, _ = run_ops(hist, ops, base, "u")
     un_by_step, counters = {}, {}
-    viol = []
+    viol = [("saved-differs-from-live", f"uninterrupted run: after op {oi} {ops[oi][:2]} the state file does not hold the live session: {t}", "uninterrupted")
+            for tg, oi, t in FL_MISMATCH if tg == "u"][:1]
+    del FL_MISMATCH[:]
     for op, (kind, body) in zip(ops, un):
         if op[0] == "step":
             n = counters.get(op[1], 0); counters[op[1]] = n + 1
             un_by_step[(op[1], n)] = (kind, body)
             if kind.startswith("http-"):
                 viol.append((f"run-step-{kind}", f"uninterrupted run: {body}", "uninterrupted"))
-    if viol:
+    if any(k != "saved-differs-from-live" for k, _, _ in viol):
         return 0, viol
     if only is not None:
         vs = [v for v in vs if v[0] == only]
+    if not vs:
+        return 0, viol
     req, spans = [], []
     for name, vops in vs:
         q = model_lines(hist, vops, un_by_step)
@@ -824,6 +901,31 @@ def request_kind_histories(quick):
     return out
 
 
+def sess(sms, scs, eqs, steps, settings=None, end=False):
+    return {"sms": sms, "scs": scs, "eqs": eqs, "steps": steps, "settings": settings or {}, "end": end}
+
+
+SESSIONS_WITNESS = {"spec": {"start": 1.0, "dt": 0.5, "stop": 10.0}, "compress": False, "torn": False,
+                    "instances": [{"sms": ["smA"], "scs": ["a"], "eqs": ["s", "c"], "steps": [copy.deepcopy(C5), {"k": "empty"}],
+                                   "sessions": [sess(["smA"], ["a"], ["s", "c"], [{"k": "set", "settings": {"smA": {"a": {"constants": {"c": 9.0}}}}}, {"k": "empty"}])]}]}
+
+
+def session_histories(quick):
+    """two and three consecutive sessions on ONE instance (begin-session again, with and without end-session), different
+    settings, equations and lengths; a crash after EVERY step of the later sessions (not between a begin-session and its first step:
+    begin-session writes nothing, the new session is not externalised yet); both modes; a second instance beside"""
+    c9 = {"k": "set", "settings": {"smA": {"a": {"constants": {"c": 9.0}}}}}
+    out = [copy.deepcopy(SESSIONS_WITNESS), dict(copy.deepcopy(SESSIONS_WITNESS), compress=True)]
+    out[1]["instances"][0]["sessions"][0]["end"] = True
+    for compress in ((True, False) if not quick else (True,)):
+        out.append({"spec": {"start": 0.0, "dt": 0.25, "stop": 10.0}, "compress": compress, "torn": not quick,
+                    "instances": [{"sms": ["smA"], "scs": ["a"], "eqs": ["s"], "steps": [copy.deepcopy(C5), {"k": "multi", "n": 2, "settings": {}}],
+                                   "sessions": [sess(["smA", "smB"], ["a", "b"], ["s", "g"], [copy.deepcopy(K3)], {"smA": {"a": {"constants": {"c": 3.0}}}}, end=True),
+                                                sess(["smA"], ["a"], ["c", "s"], [copy.deepcopy(c9), {"k": "nobody"}, {"k": "empty"}, copy.deepcopy(C5)])]},
+                                  {"sms": ["smA"], "scs": ["b"], "eqs": ["s"], "steps": [{"k": "empty"}, copy.deepcopy(K3)]}]})
+    return out
+
+
 BAD_SETTINGS = {"smA": {"a": {"constants": 5}}}          # the runner cannot apply them: the first step of the stream raises
 
 
@@ -907,6 +1009,8 @@ def probe(base):
     facts["replayOrderPreserved"] = probe_order(base)
     facts["loadReadsCommitted"] = probe_tmp(base)
     facts["saveOnEveryEnding"] = probe_endings(base)
+    _, v = run_history(SESSIONS_WITNESS, base, only="none")
+    facts["savedEqualsLive"] = not any(k == "saved-differs-from-live" for k, _, _ in v)
     facts["loadSkipsUnusableStates"] = probe_unusable(base)
     UNUSABLE_OK[0] = facts["loadSkipsUnusableStates"]
     for k in CFG:
@@ -1073,7 +1177,8 @@ def gen_lean(facts):
            f"dropped, every other one decompressed): {facts['loadIsPerEntry']} -/\n"
            f"def cfg : Cfg := {{ replayIsComplete := {b(facts['replayIsComplete'])}, atomicWrite := {b(facts['atomicWrite'])}, "
            f"loadIsPerEntry := {b(facts['loadIsPerEntry'])}, replayOrderPreserved := {b(facts['replayOrderPreserved'])}, "
-           f"loadReadsCommitted := {b(facts['loadReadsCommitted'])}, saveOnEveryEnding := {b(facts['saveOnEveryEnding'])}, loadSkipsUnusable := {b(facts.get('loadSkipsUnusableStates'))} }}\n"
+           f"loadReadsCommitted := {b(facts['loadReadsCommitted'])}, saveOnEveryEnding := {b(facts['saveOnEveryEnding'])}, "
+           f"savedEqualsLive := {b(facts['savedEqualsLive'])}, loadSkipsUnusable := {b(facts.get('loadSkipsUnusableStates'))} }}\n"
            f"-- a load reads the committed state file, never a temporary file lying next to it (torn or complete): {facts['loadReadsCommitted']}\n"
            f"-- a state file that parses but does not hold a session state is skipped like an unreadable one (File.torn of the model covers both): "
            f"{facts.get('loadSkipsUnusableStates')}\n"
@@ -1082,7 +1187,12 @@ def gen_lean(facts):
     rest_good = facts["replayIsComplete"] and facts["loadIsPerEntry"] and facts["replayOrderPreserved"]
     out += (f"-- the instance is written after a stream-steps request however it ends (complete / client gone / failing step): "
             f"{facts['saveOnEveryEnding']}\n")
-    if rest_good and facts["loadReadsCommitted"] and not facts["saveOnEveryEnding"]:
+    out += (f"-- after every stepping request the state file holds the logs of the live session entry by entry, also for a further session on the "
+            f"instance: {facts['savedEqualsLive']}\n")
+    if rest_good and facts["loadReadsCommitted"] and facts["saveOnEveryEnding"] and not facts["savedEqualsLive"]:
+        out += ("theorem violated {σ ρ : Type} (d : Dyn σ ρ) : ¬ C20_full_cfg cfg d := C20_witness_stale_snapshot cfg (by decide)\n"
+                "#print axioms violated\n")
+    elif rest_good and facts["loadReadsCommitted"] and not facts["saveOnEveryEnding"]:
         out += "theorem violated : ¬ C20_full_cfg cfg histDyn := C20_witness_client_gone cfg (by decide)\n#print axioms violated\n"
     elif rest_good and not facts["loadReadsCommitted"] and facts["atomicWrite"]:
         out += ("theorem violated : ¬ C20_full_cfg cfg histDyn := C20_witness_temp_first cfg (by decide) (by decide)\n#print axioms violated\n")
@@ -1095,7 +1205,7 @@ def gen_lean(facts):
                 "#print axioms violated\n")
     elif facts["replayIsComplete"]:
         out += "theorem holds {σ ρ : Type} (d : Dyn σ ρ) : C20_full_cfg cfg d := C20_full_of_good cfg (by decide) d\n#print axioms holds\n"
-        if facts["atomicWrite"] and facts["loadIsPerEntry"] and facts["replayOrderPreserved"] and facts["loadReadsCommitted"] and facts["saveOnEveryEnding"]:
+        if facts["atomicWrite"] and facts["loadIsPerEntry"] and facts["replayOrderPreserved"] and facts["loadReadsCommitted"] and facts["saveOnEveryEnding"] and facts["savedEqualsLive"]:
             out += ("theorem no_instance_lost_in_write {σ ρ : Type} (d : Dyn σ ρ) : NoLossInWrite cfg d := "
                     "noLoss_of_atomic cfg (by decide) (by decide) d\n#print axioms no_instance_lost_in_write\n")
     else:
@@ -1143,7 +1253,7 @@ def _run(chk, base):
                        "points; fsync/rename ordering of the file system is trusted", "SD sessions; start/dt on the dyadic or the decimal lattice (see C19)"]
     nmax = 6 if chk.quick else 12
     rng = chk.rng.fork("c20-hist")
-    hists = ([WITNESS, WITNESS_LATE] + damage_histories(chk.quick) + stream_histories(chk.quick) + request_kind_histories(chk.quick) +
+    hists = ([WITNESS, WITNESS_LATE] + session_histories(chk.quick) + damage_histories(chk.quick) + stream_histories(chk.quick) + request_kind_histories(chk.quick) +
              tmp_histories(chk.quick) + boundary_histories(chk.quick) + late_settings_histories(chk.quick) +
              [gen_history(rng, nmax) for _ in range(5 if chk.quick else 40)])   # (the dedicated families first: the time cap may cut the tail)
     chk.cov["rule"] = (f"per generated history (1-3 instances, <= {nmax} steps, settings / {{}} / no body, both adapter modes): one uninterrupted run, then one "
@@ -1172,6 +1282,8 @@ def _run(chk, base):
                                             "stream": "stream-steps " + ("failing at its first step" if s_.get("settings") == BAD_SETTINGS else
                                                                          "complete" if s_.get("close") is None else "closed by the client")}[s_["k"]], 1)
             row("session settings given at begin-session" if i_.get("settings") else "session without session settings")
+            for ss_ in i_.get("sessions", []):
+                row("further session on the instance " + ("(after end-session)" if ss_.get("end") else "(begin-session again)"))
         for nm, _ in vs:
             kind = nm.split("@")[0] + (":lazy load" if nm.endswith(":lazy") else "") + (" (several)" if "+" in nm and nm.startswith("crash") else "")
             row("variant: " + kind)
